@@ -2,4 +2,4 @@ package main
 
 import "verifharness/c15"
 
-func init() { runners["C15"] = c15.Run }
+func init() { runners["C15"] = c15.Run; facts["C15"] = c15.Facts }
